@@ -1310,6 +1310,25 @@ class VF:
                 if getattr(ls, 'counter_key', None) is not None and ls.var is not None and isinstance(ls.n, T.Tm):
                     pass
                 return T.subst(v, m) if m else v
+            # the value is computed in the iteration that leaves: it is what a variable assigned in every iteration would hold at
+            # the exit (`let r = loop { ..; if done { break v } }` is `let mut r; loop { ..; r = v; if done { break } }`) -- a synthetic
+            # carried place per component, so that rules about "the value of the last iteration" see either spelling
+            is_tt = isinstance(v, T.Tm) and v[0] == 'tuple'
+            comps = v.items if isinstance(v, Tup) else (list(v[1]) if is_tt else [v])
+            try:
+                terms = [self.to_term(c) for c in comps]
+            except Exception:
+                terms = None
+            if terms is not None and not self.disc_mode:
+                outs = []
+                for j, t_ in enumerate(terms):
+                    key = (('loopval', ls.uid, j), ())
+                    ls.lh[key] = T.sym('lh%d:loopval%d' % (ls.uid, j))
+                    ls.init[key] = T.sym('uninit:loopval')
+                    ls.next[key] = t_
+                    ls.lx[key] = T.sym('lx%d:loopval%d' % (ls.uid, j))
+                    outs.append(ls.lx[key])
+                return Tup(outs) if isinstance(v, Tup) else (T.tup(*outs) if is_tt else outs[0])
             if isinstance(v, T.Tm):
                 return T.sym('loopval%d' % ls.uid)
             return v
